@@ -206,7 +206,9 @@ impl Prop for PNum {
                 files.push(json!({"v": before_epoch}));
             }
             let fv = files[rng.below(files.len())]["v"].as_i64().unwrap();
-            n = json!({"v": (fv + rng.range(-1, 1)).max(0)});
+            // (now and then an operand near 2^63 / 2^64: an age of -1 is not 18446744073709551615)
+            n = if rng.chance(1, 8) { json!({"huge": *rng.pick(&["9223372036854775807", "9223372036854775808", "18446744073709551615", "18446744073709551614"])}) }
+                else { json!({"v": (fv + rng.range(-1, 1)).max(0)}) };
         } else {
             for _ in 0..nf {
                 files.push(json!({"v": if prim == "links" { 1 + rng.below(5) } else if rng.chance(1, 3) { rng.below(3) } else { rng.below(70000) }}));
